@@ -1513,6 +1513,12 @@ func (s *BgpServer) processRTCMembership(peer *peer, path *table.Path) {
 			peer.fsm.logger.Debug("Nothing sent in response to RT received. Waiting for RTC EOR.", slog.Any("Path", path))
 			return
 		}
+		if rt == nil {
+			// (already filtered for this peer by the table transfer logic)
+			peer.updateRoutes(paths...)
+			sendfsmOutgoingMsg(peer, paths)
+			return
+		}
 		filtered = s.processOutgoingPaths(peer, filtered, nil)
 		peer.updateRoutes(filtered...)
 		sendfsmOutgoingMsg(peer, filtered)
@@ -1547,11 +1553,10 @@ func (s *BgpServer) rtcVPNCandidates(peer *peer, isWithdraw bool, rt bgp.Extende
 		fn(nil, paths)
 		return
 	}
-	if isWithdraw {
-		s.getBestFromLocalCallbackLocked(peer, fs, false, fn)
-		return
-	}
-	fn(nil, s.globalRib.GetBestPathList(peer.TableID(), 0, fs))
+	// The default membership concerns every route: what the peer may be sent
+	// (every path of a destination up to send-max when it negotiated
+	// ADD-PATH, not only the best one) is what a table transfer computes.
+	s.getBestFromLocalCallbackLocked(peer, fs, false, fn)
 }
 
 func dstsToPaths(id string, as uint32, dsts []*table.Update) ([]*table.Path, []*table.Path, [][]*table.Path, []*table.Path, []*table.Path) {
